@@ -54,6 +54,12 @@ def gen_hypergraph(rng, weighted=None):
 
 def run_case(ctx, rng, idx):
     m = idx % 8
+    if idx == 1 or (ctx.tier == "thorough" and idx % 800 == 9):
+        from ..gen import big_hypergraph
+
+        ctx.event("big-hypergraph")
+        static_case(ctx, rng, big_hypergraph(rng, weighted=rng.random() < 0.3, n=rng.randint(40, 70), m=rng.randint(100, 200)), idx, stress=True)
+        return
     if m <= 4:
         h, uni = gen_hypergraph(rng)
         static_case(ctx, rng, h, idx, stress=False)
